@@ -26,10 +26,14 @@ contract(M + "_is_fix_comment",
         "statement_line_is_not": "implies(len(line) > 0 and not (line[0] == '*' or line[0] == 'c' or line[0] == 'C' or line[0] == '!') and '!' not in line, not result)",
         "strict_only_col1": "implies(isstrict and len(line) > 0 and not (line[0] == '*' or line[0] == 'c' or line[0] == 'C' or line[0] == '!'), not result)",
         "bang_in_col6_is_continuation": "implies(not isstrict and len(line) > 5 and line[:5] == '     ' and line[5] == '!', not result)",
+        # a '!' with something other than blanks in front of it starts an in-line comment (or sits in a literal, or in a
+        # preprocessor line such as '#if !defined(X)'): the line itself is not a comment line
+        "text_before_the_bang_is_not_a_comment_line": "implies(len(line) > 0 and not (line[0] == '*' or line[0] == 'c' or line[0] == 'C' or line[0] == '!') "
+                                                      "and '!' in line and line[:line.find('!')].lstrip() != '', not result)",
     },
     raises=[],
-    domain=dict(line="strings(' c!x', N)", isstrict="[False, True]", f2py_enabled="[False]", _size=dict(quick=7, thorough=8)),
-    serves=["C05", "C11"],
+    domain=dict(line="strings(' c!x#', N)", isstrict="[False, True]", f2py_enabled="[False]", _size=dict(quick=6, thorough=7)),
+    serves=["C05", "C11", "C14"],
 )
 
 contract(M + "FortranReaderBase.replace_omp_sentinels",
